@@ -44,6 +44,11 @@ type fnSig struct {
 	// fourth part: the opaque callees the function (transitively) calls, in order of first use —
 	// parameters of the Lean function; the callback parameters (kFunc) are marked in params
 	opaques []fnKey
+	// fifth part: the interface methods the function (transitively) calls — parameters as well
+	imeths []imKey
+	// code_parse.go: the local aliases of byte slices found so far (carried from the probe pass to the
+	// emitting pass, so that a write that textually precedes the aliasing statement in a loop is seen)
+	aliases []sliceAlias
 }
 
 // comps lists the types of the components of the Lean result.
@@ -117,6 +122,7 @@ type loopCtx struct {
 	// third part: `range P` over a slice value — Lean name of the root of P and the field path
 	rangeVar  string
 	rangePath []string
+	pos       token.Pos // code_parse.go: position of the loop statement
 }
 
 type errVar struct {
@@ -284,8 +290,11 @@ func (c *codegen) flush(exprs ...ast.Node) []string {
 	c.cur.pre = nil
 	hs := c.cur.mutHoist
 	c.cur.mutHoist = nil
-	if len(hs) > 1 {
-		c.fail(hs[1].call, "two calls with effects in one statement (evaluation order)")
+	for _, h := range hs {
+		// one call may rebind several variables (receiver and out arguments): hoists of the same call count once
+		if h.call != hs[0].call {
+			c.fail(h.call, "two calls with effects in one statement (evaluation order)")
+		}
 	}
 	for _, h := range hs {
 		for _, e := range exprs {
@@ -343,6 +352,18 @@ func (c *codegen) sliceExpr(x *ast.SliceExpr) (string, gtype) {
 		c.fail(x, "3-index slice expression")
 	}
 	s, t := c.expr(x.X, gtype{}, false)
+	if t.kind == kSlice && c.phase5 {
+		// a slice modelled as a list has no capacity: only s[i:] is determined by its value
+		if c.constZero(x.High) && (x.Low == nil || c.constZero(x.Low)) {
+			// code_parse.go: s[:0] / s[0:0] — 0 ≤ 0 ≤ cap(s) holds for every capacity: never panics,
+			// the value is the empty list (the capacity it keeps is not modelled for lists)
+			return "([] : " + t.lean() + ")", t
+		}
+		if x.High != nil || x.Low == nil {
+			c.fail(x, "slice expression %s on a list-valued slice (only s[i:]: the upper bound of s[i:j] is checked against the capacity, which the list model does not have)", c.src(x))
+		}
+		return c.bindRes("t", "listSliceFrom "+paren(s)+" "+c.intIndex(x.Low), x), t
+	}
 	if t.kind != kBytes && t.kind != kGSlice {
 		c.fail(x, "slice expression on %s (only []byte values)", t)
 	}
@@ -402,6 +423,9 @@ func (c *codegen) compositeLit(x *ast.CompositeLit) (string, gtype) {
 		if c.phase3 {
 			c.checkNoSliceAlias(ft, nil, kv.Value, el)
 		}
+		if ft.kind == kIface {
+			c.ifaceMoved(kv.Value, x)
+		}
 		given[key.Name] = v
 	}
 	var fs []string
@@ -448,6 +472,7 @@ func (c *codegen) copyCall(x *ast.CallExpr) (string, gtype) {
 	if t := c.pathType(v, p, x); t.kind != kBytes {
 		c.fail(x, "copy into %s", t)
 	}
+	c.checkAliasWrite(v, p, x, "copy into")
 	dst, _ := c.expr(x.Args[0], gtype{}, false)
 	src, st := c.expr(x.Args[1], gtype{kind: kBytes}, false)
 	if st.kind != kBytes {
@@ -469,7 +494,7 @@ func (c *codegen) noteOutParam(name string, direct bool, at ast.Node) {
 		return // not a parameter
 	}
 	for i, p := range c.cur.sig.params {
-		if p.name == name && (p.typ.kind == kBytes || (c.phase4 && p.typ.kind == kGSlice)) {
+		if p.name == name && (p.typ.kind == kBytes || (c.phase4 && p.typ.kind == kGSlice) || (c.phase5 && p.typ.kind == kIface)) {
 			if !direct {
 				c.fail(at, "write through a part of the parameter %s", name)
 			}
@@ -496,8 +521,14 @@ func (c *codegen) appendCall(x *ast.CallExpr, target string) (string, gtype) {
 		c.fail(x, "append whose result is not assigned back to its first argument (x = append(x, …)): slices are values, the old x would go stale")
 	}
 	a, at := c.expr(x.Args[0], gtype{}, false)
+	if av, ap := c.path(x.Args[0]); av != nil {
+		c.checkAliasWrite(av, ap, x, "append to")
+	}
 	if at.kind == kGSlice && c.phase4 {
 		return c.appendGSlice(x, a, at)
+	}
+	if at.kind == kSlice && c.phase5 {
+		return c.appendList(x, a, at) // code_parse.go
 	}
 	if at.kind != kBytes {
 		c.fail(x, "append to %s", at)
@@ -559,10 +590,7 @@ func (c *codegen) call2(k fnKey, recv ast.Expr, x *ast.CallExpr) ([]string, []gt
 		c.needFuel(x)
 		parts = append(parts, "fuel")
 	}
-	for _, o := range sig.opaques {
-		c.needOpaque(o, x)
-		parts = append(parts, o.name)
-	}
+	parts = append(parts, c.sigArgs(sig, x)...)
 	var recvVar *varInfo
 	var recvPath []string
 	if k.recv != "" {
@@ -572,6 +600,7 @@ func (c *codegen) call2(k fnKey, recv ast.Expr, x *ast.CallExpr) ([]string, []gt
 			}
 			recvVar, recvPath = c.path(recv)
 			c.checkRangeTarget(recvVar, recvPath, x)
+			c.checkAliasWrite(recvVar, recvPath, x, "call of a method that mutates")
 			c.checkRecvMutation(rootIdent(recv), x)
 		}
 		r, rt := c.expr(recv, gtype{}, false)
@@ -610,12 +639,26 @@ func (c *codegen) call2(k fnKey, recv ast.Expr, x *ast.CallExpr) ([]string, []gt
 			c.fail(a, "argument %d of %s has type %s, want %s", i+1, fnName(k), t, pt)
 		}
 		parts = append(parts, paren(s))
+		if pt.kind == kIface && !sig.params[i].out {
+			c.ifaceMoved(a, x) // the callee keeps the value (it does not hand its state back)
+		}
 		if sig.params[i].out {
 			if rootIdent(a) == nil {
 				c.fail(a, "argument %d of %s is written by the callee: only a variable or field path", i+1, fnName(k))
 			}
 			v, p := c.path(a)
 			c.checkRangeTarget(v, p, x)
+			c.checkAliasWrite(v, p, x, "call that writes its argument")
+			if c.phase5 {
+				if recvVar != nil && recvVar == v && !disjointPaths(recvPath, p) {
+					c.fail(a, "argument %d of %s, which the callee writes, overlaps the receiver of the call", i+1, fnName(k))
+				}
+				for _, o := range outs {
+					if !o.cb && o.v == v && !disjointPaths(o.p, p) {
+						c.fail(a, "two arguments of %s that the callee writes overlap", fnName(k))
+					}
+				}
+			}
 			outs = append(outs, outArg{v, p, a, false})
 		}
 	}
@@ -657,7 +700,7 @@ func (c *codegen) call2(k fnKey, recv ast.Expr, x *ast.CallExpr) ([]string, []gt
 		if c.phase4 {
 			// the same variable passed for a written parameter and for another one: aliasing
 			for j2, a2 := range x.Args {
-				if id2 := rootIdent(a2); id2 != nil && a2 != o.e && id2.Name == rootIdent(o.e).Name {
+				if id2 := rootIdent(a2); id2 != nil && a2 != o.e && id2.Name == rootIdent(o.e).Name && !c.disjointArgs(a2, o.e) {
 					c.fail(x, "variable %s is passed twice to %s, which writes one of the two parameters (aliasing)", id2.Name, fnName(k))
 				}
 				_ = j2
@@ -701,10 +744,21 @@ func (c *codegen) calleeOf(x *ast.CallExpr) (fnKey, ast.Expr, bool) {
 		k := fnKey{goStruct(t.name), f.Sel.Name}
 		if c.fns[k] == nil {
 			// method promoted from an embedded struct
-			for _, raw := range c.structs[goStruct(t.name)] {
-				if raw.name == "" && c.fns[fnKey{raw.typ, f.Sel.Name}] != nil {
-					c.fail(x, "call of the promoted method %s.%s", raw.typ, f.Sel.Name)
+			if pp := c.promotedMethod(t.name, f.Sel.Name, x); pp != nil {
+				if !c.phase5 {
+					c.fail(x, "call of the promoted method %s.%s", pp[len(pp)-1], f.Sel.Name)
 				}
+				// code_parse.go: `s.m(…)` is `s.E1.E2.m(…)`, E1.E2 the embedded fields on the way to
+				// the struct that declares m (Go spec, "Selectors": x.f ≡ (&x.E1.E2).f)
+				var recv ast.Expr = f.X
+				for _, e := range pp {
+					recv = &ast.SelectorExpr{X: recv, Sel: &ast.Ident{NamePos: f.Sel.Pos(), Name: e}}
+				}
+				k = fnKey{pp[len(pp)-1], f.Sel.Name}
+				if !c.whiteSet[k] {
+					c.fail(x, "call of non-whitelisted method %s", fnName(k))
+				}
+				return k, recv, true
 			}
 		}
 		if !c.whiteSet[k] {
@@ -721,11 +775,17 @@ func (c *codegen) multiAssign(x *ast.AssignStmt) []string {
 	if !ok {
 		c.fail(x, "assignment of a multi-valued expression")
 	}
-	k, recv, ok := c.calleeOf(call)
-	if !ok {
-		c.fail(x, "assignment of the multi-valued call %s", c.src(call))
+	var vals []string
+	var types []gtype
+	if irecv, ik, isIface := c.ifaceCallee(call); isIface {
+		vals, types = c.ifaceCall(irecv, ik, call)
+	} else {
+		k, recv, ok := c.calleeOf(call)
+		if !ok {
+			c.fail(x, "assignment of the multi-valued call %s", c.src(call))
+		}
+		vals, types = c.call2(k, recv, call)
 	}
-	vals, types := c.call2(k, recv, call)
 	if len(vals) != len(x.Lhs) {
 		c.fail(x, "assignment of %d values to %d variables", len(vals), len(x.Lhs))
 	}
@@ -896,6 +956,9 @@ func (c *codegen) loopStmt(x ast.Stmt, bodyStmt *ast.BlockStmt, rest []ast.Stmt,
 	for _, o := range c.cur.sig.opaques {
 		callParts = append(callParts, o.name)
 	}
+	for _, m := range c.cur.sig.imeths {
+		callParts = append(callParts, m.param())
+	}
 	for _, v := range caps {
 		vi := c.lookup(v)
 		callParts = append(callParts, vi.lean)
@@ -919,7 +982,7 @@ func (c *codegen) loopStmt(x ast.Stmt, bodyStmt *ast.BlockStmt, rest []ast.Stmt,
 		}
 		return []string{strings.Join(callParts, " ") + " fuel " + strings.Join(stateNames, " ")}
 	}
-	lc := &loopCtx{contK: invoke, label: loopLabel}
+	lc := &loopCtx{contK: invoke, label: loopLabel, pos: x.Pos()}
 	if fx != nil && fx.Post != nil {
 		// `continue` (and falling off the end of the body) runs the post statement first; it is
 		// translated in the scope of the loop statement
@@ -1032,7 +1095,13 @@ func (c *codegen) loopStmt(x ast.Stmt, bodyStmt *ast.BlockStmt, rest []ast.Stmt,
 	if rx != nil && usesFuel {
 		hdr += " (fuel : Nat)"
 	}
-	hdr += c.opaqueDecls(c.cur.sig, x)
+	{
+		var ts []gtype
+		for _, v := range caps {
+			ts = append(ts, c.lookup(v).typ)
+		}
+		hdr += c.sigBinders(c.cur.sig, append(ts, stateT...), x)
+	}
 	if len(capDecl) > 0 {
 		hdr += " " + strings.Join(capDecl, " ")
 	}
@@ -1178,6 +1247,9 @@ func (c *codegen) gotoK(label string, at ast.Node) []string {
 		return c.pseudoGotoK(label, at)
 	}
 	li, ok := c.cur.labels[label]
+	if bl := c.cur.blockLabels[label]; !ok && bl != nil && c.phase5 {
+		return c.blockGotoK(bl, label, at) // code_parse.go
+	}
 	if !ok || len(li) == 0 || li[0].Pos() <= at.Pos() {
 		c.fail(at, "goto %s: only labels on statements of the function body, jumped to forwards", label)
 	}
@@ -1227,8 +1299,23 @@ func (c *codegen) branchStmt(x *ast.BranchStmt, rest []ast.Stmt) []string {
 }
 
 // hasJump: the statements contain a return, or a break/continue that leaves them.
-func hasJump(list []ast.Stmt) bool {
+func hasJump(list []ast.Stmt) bool { return hasJumpX(list, false) }
+
+// hasJumpX: localGotoOK — a `goto L` whose label L is declared inside of list does not leave
+// list (code_parse.go).
+func hasJumpX(list []ast.Stmt, localGotoOK bool) bool {
 	found := false
+	local := map[string]bool{}
+	if localGotoOK {
+		for _, s := range list {
+			ast.Inspect(s, func(m ast.Node) bool {
+				if ls, ok := m.(*ast.LabeledStmt); ok {
+					local[ls.Label.Name] = true
+				}
+				return true
+			})
+		}
+	}
 	var walk func(n ast.Node, inLoop bool)
 	walk = func(n ast.Node, inLoop bool) {
 		ast.Inspect(n, func(m ast.Node) bool {
@@ -1243,6 +1330,9 @@ func hasJump(list []ast.Stmt) bool {
 					found = true // like a return: the statements after it are not executed
 				}
 			case *ast.BranchStmt:
+				if y.Tok == token.GOTO && y.Label != nil && local[y.Label.Name] {
+					break // stays inside of list
+				}
 				if y.Tok == token.GOTO || y.Label != nil || !inLoop {
 					found = true
 				}
@@ -1341,6 +1431,9 @@ func (c *codegen) bindJoinRes(vars []string, rhs []string) []string {
 }
 
 func (c *codegen) jumps(list []ast.Stmt) bool {
+	if c.phase5 {
+		return hasJumpX(list, true)
+	}
 	if c.phase2 {
 		return hasJump(list)
 	}
@@ -1363,6 +1456,10 @@ func (c *codegen) callValue(k fnKey, recv ast.Expr, x *ast.CallExpr) (string, gt
 
 // callStmt2: a call as a statement; its results are dropped.
 func (c *codegen) callStmt2(x *ast.ExprStmt, call *ast.CallExpr) []string {
+	if irecv, ik, isIface := c.ifaceCallee(call); isIface {
+		c.ifaceCall(irecv, ik, call) // the results are dropped, the effect is in the hoisted lines
+		return nil
+	}
 	k, recv, ok := c.calleeOf(call)
 	if !ok {
 		c.fail(x, "call statement %s", c.src(call))
@@ -1456,7 +1553,7 @@ func (c *codegen) ret2(x *ast.ReturnStmt) []string {
 // second pass emits it.
 func (c *codegen) function2(k fnKey) fnOut {
 	_, probe := c.gen2(k, &fnSig{}, true)
-	flags := &fnSig{monadic: probe.monadic, grow: probe.grow, fuel: probe.fuel, opaques: probe.opaques}
+	flags := &fnSig{monadic: probe.monadic, grow: probe.grow, fuel: probe.fuel, opaques: probe.opaques, imeths: probe.imeths, aliases: probe.aliases}
 	for _, p := range probe.params {
 		flags.params = append(flags.params, sparam{name: p.name, out: p.out})
 	}
@@ -1467,8 +1564,9 @@ func (c *codegen) function2(k fnKey) fnOut {
 
 func (c *codegen) gen2(k fnKey, flags *fnSig, probe bool) (fnOut, *fnSig) {
 	fd := c.fns[k]
-	sig := &fnSig{monadic: flags.monadic, grow: flags.grow, fuel: flags.fuel, opaques: append([]fnKey{}, flags.opaques...)}
-	f := &fnCtx{key: k, fd: fd, used: map[string]bool{}, errSiteOf: map[token.Pos]int{}, sig: sig, probe: probe}
+	sig := &fnSig{monadic: flags.monadic, grow: flags.grow, fuel: flags.fuel, opaques: append([]fnKey{}, flags.opaques...),
+		imeths: append([]imKey{}, flags.imeths...), aliases: append([]sliceAlias{}, flags.aliases...)}
+	f := &fnCtx{key: k, fd: fd, used: map[string]bool{}, errSiteOf: map[token.Pos]int{}, sig: sig, probe: probe, ptrVars: map[*varInfo]bool{}}
 	prev := c.cur // restored also while a refusal unwinds through the caller's frames
 	c.cur = f
 	defer func() { c.cur = prev }()
@@ -1495,6 +1593,9 @@ func (c *codegen) gen2(k fnKey, flags *fnSig, probe bool) (fnOut, *fnSig) {
 		f.recvMut = ptr && c.mutates[k]
 		sig.recv, sig.recvMut = t, f.recvMut
 		v := c.declare(f.recvVar, t)
+		if ptr {
+			f.ptrVars[v] = true
+		}
 		params = append(params, fmt.Sprintf("(%s : %s)", v.lean, t.lean()))
 		gosig += "(" + f.recvVar + " " + c.src(r.Type) + ") "
 	}
@@ -1502,6 +1603,7 @@ func (c *codegen) gen2(k fnKey, flags *fnSig, probe bool) (fnOut, *fnSig) {
 	var ps []string
 	var cbInit []string
 	f.localTypes = map[string]string{}
+	ptrOut := map[string]bool{}
 	for _, p := range fd.Type.Params.List {
 		if _, ok := p.Type.(*ast.Ellipsis); ok {
 			c.fail(fd, "variadic parameter")
@@ -1517,6 +1619,9 @@ func (c *codegen) gen2(k fnKey, flags *fnSig, probe bool) (fnOut, *fnSig) {
 			}
 			v := c.declare(n.Name, t)
 			ns = append(ns, n.Name)
+			if _, isPtr := p.Type.(*ast.StarExpr); isPtr {
+				f.ptrVars[v] = true
+			}
 			if t.kind == kFunc {
 				// a callback parameter: not a Lean parameter, its calls are logged (code_part4.go)
 				cbInit = append(cbInit, fmt.Sprintf("let %s : %s := []", v.lean, t.lean()))
@@ -1583,6 +1688,15 @@ func (c *codegen) gen2(k fnKey, flags *fnSig, probe bool) (fnOut, *fnSig) {
 			body = append(body, fmt.Sprintf("let %s : %s := %s", v.lean, r.typ.lean(), c.zeroOf(r.typ, fd)))
 		}
 	}
+	if c.phase5 {
+		// pointer parameters the body writes through are out parameters (code_iface.go)
+		ptrOut = c.ptrParamsWritten(fd)
+		for i := range sig.params {
+			if ptrOut[sig.params[i].name] && sig.params[i].typ.kind == kStruct {
+				sig.params[i].out = true
+			}
+		}
+	}
 	var end cont
 	if len(sig.results) == 0 {
 		end = func() []string { return c.retValue(nil) }
@@ -1605,7 +1719,12 @@ func (c *codegen) gen2(k fnKey, flags *fnSig, probe bool) (fnOut, *fnSig) {
 		out = append(out, a...)
 		out = append(out, "")
 	}
-	out = append(out, fmt.Sprintf("/-- `%s` — %s -/", gosig, c.pos(fd)))
+	if len(f.nonNilUsed) > 0 {
+		out = append(out, fmt.Sprintf("/-- `%s` — %s\n    ASSUMES (topic assumption, code_parse.go) that the pointer parameter(s) %s are not nil:\n    `p == nil` ↦ False, `p != nil` ↦ True. -/",
+			gosig, c.pos(fd), strings.Join(f.nonNilUsed, ", ")))
+	} else {
+		out = append(out, fmt.Sprintf("/-- `%s` — %s -/", gosig, c.pos(fd)))
+	}
 	hdr := "def " + leanFn(k)
 	if sig.grow {
 		hdr += " (grow : Nat → Nat → Nat)"
@@ -1613,7 +1732,19 @@ func (c *codegen) gen2(k fnKey, flags *fnSig, probe bool) (fnOut, *fnSig) {
 	if sig.fuel {
 		hdr += " (fuel : Nat)"
 	}
-	hdr += c.opaqueDecls(sig, fd)
+	{
+		var ts []gtype
+		if fd.Recv != nil {
+			ts = append(ts, sig.recv)
+		}
+		for _, p := range sig.params {
+			ts = append(ts, p.typ)
+		}
+		for _, r := range sig.results {
+			ts = append(ts, r.typ)
+		}
+		hdr += c.sigBinders(sig, ts, fd)
+	}
 	if len(params) > 0 {
 		hdr += " " + strings.Join(params, " ")
 	}
@@ -1670,14 +1801,26 @@ func (c *codegen) assignedOuter2(at ast.Node, lists ...[]ast.Stmt) []string {
 			if !ok {
 				return true
 			}
+			if c.phase5 {
+				c.markIfaceEffects(call, local, mark)
+			}
 			switch f := call.Fun.(type) {
 			case *ast.SelectorExpr:
 				if id := rootIdent(f.X); id != nil && (local(id.Name) || c.lookup(id.Name) != nil) {
 					// a method call on an addressable path may mutate its root
 					if !local(id.Name) {
 						if v, p := c.path(f.X); v != nil {
-							if t := c.pathType(v, p, call); t.kind == kStruct && c.mutates[fnKey{goStruct(t.name), f.Sel.Name}] {
-								mark(f.X)
+							if t := c.pathType(v, p, call); t.kind == kStruct {
+								mk := fnKey{goStruct(t.name), f.Sel.Name}
+								if c.fns[mk] == nil && c.phase5 {
+									// a method promoted from an embedded struct (code_parse.go)
+									if pp := c.promotedMethod(t.name, f.Sel.Name, call); pp != nil {
+										mk = fnKey{pp[len(pp)-1], f.Sel.Name}
+									}
+								}
+								if c.mutates[mk] {
+									mark(f.X)
+								}
 							}
 						}
 					}
